@@ -1,10 +1,10 @@
 #!/bin/bash
-# usage: seedtest.sh <PROP> <patch.diff>   — apply a seeded change to /repo, run the check, undo
+# usage: seedtest.sh <PROP> <patch.diff>   — apply a seeded change to a scratch copy of /repo's working tree, run the check
+# there, remove the copy (nothing is ever applied to /repo itself)
 set -u
-PROP=$1; PATCH=$2
-cd /repo || exit 2
-if [ -n "$(git status --porcelain)" ]; then echo "REFUSING: /repo has uncommitted changes (commit the contract files first)"; exit 2; fi
-if ! git apply --check "$PATCH" 2>/dev/null; then echo "patch does not apply"; exit 2; fi
-git apply "$PATCH"
-(cd /verif && timeout 900 ./bin/govc check -prop $PROP -no-evidence -verif /var/tmp/seedtest-verif 2>&1 | grep -E "^VIOLATION|^govc|^UNDEC|^KNOWN" | cut -c1-400)
-git checkout -- . ; rm -rf /var/tmp/seedtest-verif
+PROP=$1; PATCH=$(realpath "$2")
+d=$(mktemp -d /var/tmp/seedtest-XXXX)
+rsync -a --exclude .git /repo/ $d/
+if ! patch -p1 -s -d $d -i "$PATCH" >/dev/null 2>&1; then echo "patch does not apply"; rm -rf $d; exit 2; fi
+(cd /verif && timeout 1500 ./bin/govc check -prop $PROP -repo $d -no-evidence -verif $d/.verif 2>&1 | grep -E "^VIOLATION|^govc|^UNDEC|^KNOWN" | cut -c1-400)
+rm -rf $d
